@@ -55,6 +55,71 @@ func c09(r *core.Run) {
 		r.Unres("S1", "SetOwnedResources/ResetAll", "cannot resolve the ownership list fields from the exported setter")
 		return
 	}
+	// the setter keeps what it was given: nil ("not set, use the defaults") and an empty list ("own
+	// nothing of this kind") are different answers, so the stored value is the argument itself or a
+	// copy made only where the argument is known non-nil (and then non-nil itself)
+	if setter := methodNamed(p, "", "Service", "SetOwnedResources"); setter != nil {
+		for i, lf := range []core.Field{resF, accF} {
+			prm := setter.Params[i+1]
+			for _, b := range setter.Blocks {
+				for _, in := range b.Instrs {
+					st, ok := in.(*ssa.Store)
+					if !ok {
+						continue
+					}
+					if f, ok := core.FieldOf(st.Addr); !ok || f != lf {
+						continue
+					}
+					bad := ""
+					for _, src := range phiSources(st.Val) {
+						v := core.Strip(src.V)
+						if v == ssa.Value(prm) {
+							continue
+						}
+						if c, isC := v.(*ssa.Const); isC && c.IsNil() {
+							// nil only where the argument is nil
+							nilArg := false
+							for _, e := range srcEdges(st, src) {
+								ci := core.Cond(e.If.Cond)
+								if ci.Kind == "nilcmp" && core.Strip(ci.X) == ssa.Value(prm) {
+									truth := e.Succ == 0
+									if ci.Negate {
+										truth = !truth
+									}
+									if (ci.Op == token.EQL) == truth {
+										nilArg = true
+									}
+								}
+							}
+							if !nilArg {
+								bad = "nil is stored where the argument may be non-nil"
+							}
+							continue
+						}
+						// a copy: allowed on the argument-non-nil edge when the copy is a fresh non-nil slice
+						nonNilArg := false
+						for _, e := range srcEdges(st, src) {
+							ci := core.Cond(e.If.Cond)
+							if ci.Kind == "nilcmp" && core.Strip(ci.X) == ssa.Value(prm) {
+								truth := e.Succ == 0
+								if ci.Negate {
+									truth = !truth
+								}
+								if (ci.Op == token.NEQ) == truth {
+									nonNilArg = true
+								}
+							}
+						}
+						_, isMake := v.(*ssa.MakeSlice)
+						if !(nonNilArg && isMake) {
+							bad = "the stored value is " + valDesc(src.V) + ", not the argument: a copy made with append onto a nil slice turns an empty list into nil, a copy made with make turns nil into an empty list"
+						}
+					}
+					r.Check(bad == "", "S1", core.FuncName(setter), "setter-keeps-nil-and-empty-apart("+lf.String()+")", p.InstrPos(st), "the list is stored as given", "SetOwnedResources does not keep nil and empty apart: "+bad+" - an explicit empty ownership is replaced by the defaults (or the defaults are switched off), so the service subscribes to and resets patterns it was told not to own")
+				}
+			}
+		}
+	}
 	isList := func(f core.Field) bool { return f == resF || f == accF }
 	var deflt, resetFn, sub *ssa.Function
 	for _, ac := range core.FieldAccesses(root, isList) {
